@@ -112,6 +112,8 @@ class GatedRun:
             def start(self):
                 run.kbd_started = True
                 threading.Thread.start(self)
+                # a scheduling point right after the thread exists and before run() goes on
+                sched.gate('M', 'thread_started')
 
             def is_alive(self):
                 sched.gate('M', 'read_alive')
